@@ -40,7 +40,32 @@ var historyGroups = []string{
 	"func hret(m dsl.Matcher) {\n\tm.Match(`return $*_`).Report(`return`)\n}\n",
 	"func hlist(m dsl.Matcher) {\n\tm.Match(`probe($a); probe($b)`).Report(`two probes $a $b`)\n}\n",
 	"func hswitch(m dsl.Matcher) {\n\tm.Match(`switch { $*_ }`).Where(m.Deadcode()).Report(`dead switch`)\n}\n",
+	"func himports(m dsl.Matcher) {\n\tm.Match(`_ = $x`).Where(m.File().Imports(`unsafe`) && !m.File().Imports(`sync`)).Report(`blank in a file that imports unsafe`)\n}\n",
 }
+
+// ---------------------------------------------------------------------------- the Do() family
+// Do functions that set the report / the suggestion for some operand types only: what one match put into the
+// per-match strings (or the captures it saw) must not show in the next one.
+func genDoGroup(rng *rand.Rand, idx int) (src, kind string) {
+	t1 := vfTypes[rng.Intn(len(vfTypes))].Name
+	t2 := vfTypes[rng.Intn(len(vfTypes))].Name
+	op := []string{"<", ">", "=="}[rng.Intn(3)]
+	name := fmt.Sprintf("hd%d", idx)
+	var body strings.Builder
+	body.WriteString("\tts := ctx.Var(\"x\").Type().String()\n")
+	switch rng.Intn(3) {
+	case 0:
+		fmt.Fprintf(&body, "\tif ts == %q {\n\t\tctx.SetReport(\"%s sees \" + ctx.Var(\"x\").Text())\n\t}\n\tif ts == %q {\n\t\tctx.SetSuggest(ctx.Var(\"y\").Text())\n\t}\n", t1, name, t2)
+	case 1:
+		fmt.Fprintf(&body, "\tif ts != %q {\n\t\tctx.SetReport(\"%s: \" + ts)\n\t} else {\n\t\tctx.SetSuggest(ctx.Var(\"x\").Text())\n\t}\n", t1, name)
+	default:
+		fmt.Fprintf(&body, "\tif ts == %q {\n\t\tctx.SetSuggest(\"(\" + ctx.Var(\"y\").Text() + \")\")\n\t}\n", t2)
+	}
+	src = fmt.Sprintf("func %s(m dsl.Matcher) {\n\tm.Match(`$x %s $y`).Do(%sf)\n}\n\nfunc %sf(ctx *dsl.DoContext) {\n%s}\n", name, op, name, name, body.String())
+	return src, "do/conditional-report-or-suggest"
+}
+
+
 
 // ---------------------------------------------------------------------------- the Contains() family
 
@@ -345,6 +370,7 @@ type hReport struct {
 	End   int    `json:"e"`
 	Msg   string `json:"m"`
 	Func  string `json:"f"`
+	Sugg  string `json:"s,omitempty"`
 }
 
 type hCall struct {
@@ -392,6 +418,9 @@ func runOnce(e *ruleguard.Engine, t *hutil.Target, f *ast.File, trunc int, st *r
 			}
 			if d.Func != nil {
 				r.Func = d.Func.Name.Name
+			}
+			if d.Suggestion != nil {
+				r.Sugg = fmt.Sprintf("%d-%d:%s", t.Fset.Position(d.Suggestion.From).Offset, t.Fset.Position(d.Suggestion.To).Offset, d.Suggestion.Replacement)
 			}
 			reps = append(reps, r)
 			if panicAt >= 0 && len(reps)-1 == panicAt {
@@ -474,6 +503,15 @@ func genVariant(rng *rand.Rand, vi int, fixed []string) (v hVariant, dropped []s
 		v.kind[groupName(bsrc)] = "contains/binder"
 		v.kind[groupName(fsrc)] = "contains/free-variable"
 		got++
+	}
+	for i := 0; i < 2; i++ {
+		src, kind := genDoGroup(rng, vi*100+80+i)
+		if _, err := loadRules(historyHeader(src)); err != nil {
+			dropped = append(dropped, groupName(src)+": "+err.Error())
+			continue
+		}
+		groups = append(groups, src)
+		v.kind[groupName(src)] = kind
 	}
 	if vi%2 == 0 {
 		v.fmt = true
